@@ -73,7 +73,7 @@ func c13History(r *core.Run, depth int) {
 				if oi == scribble {
 					for k := range hs {
 						for i := range hs[k].b {
-							hs[k].b[i] ^= 0xA5
+							hs[k].b[i] = 0xA5
 						}
 						hs[k].gone = hs[k].gone || hs[k].b != nil
 					}
